@@ -18,7 +18,7 @@ import ast
 from sa.cfg import expr_guards
 from sa.cfg import facts as _facts
 from sa.consteval import Folder
-from sa.model import AnalysisError, Finding, FunctionInfo, loc, names_in, order_key, src
+from sa.model import AnalysisError, Finding, FunctionInfo, enclosing_fn, loc, names_in, order_key, src
 
 
 def _is_emptiness_test(t, p):
@@ -905,71 +905,113 @@ def rule_getvalue_part(prog, rep, tier, anchor="ast_utils.get_value"):
 
 # ---------------------------------------------------------------------------- LIVE-TYPE
 def rule_live_type(prog, rep, tier):
-    """LIVE-TYPE (C19): `gen` reads live objects; the annotation of a signature parameter is an *object* (`int`, `typing.Optional[int]`).
-    The IR's `typ` is source text that is parsed again later.  `str(int)` is `<class 'int'>`: where a value derived from an
-    `.annotation` / `.return_annotation` attribute is formatted into `typ`, a class is written by its name (`__name__` /
-    `__qualname__`, under an `isinstance(.., type)` test, or through `inspect.formatannotation`)."""
+    """LIVE-TYPE (C19, C07): `gen` and the in-memory readers read live objects; the annotation of a signature parameter is an *object*
+    (`int`, `typing.Optional[int]`).  The IR's `typ` is source text that is parsed again later.  `str(int)` is `<class 'int'>`: where a
+    value derived from an `.annotation` / `.return_annotation` attribute is formatted into `typ`, a class is written by its name
+    (`__name__` / `__qualname__`, under an `isinstance(.., type)` / `isclass` test, or through `inspect.formatannotation`); and only a
+    class is written by its name.  The annotation is followed through single-assignment locals and into a package helper that
+    receives it as an argument (its `return` expressions are judged, under the helper's own conditions)."""
+    from sa.cfg import facts
+    LIVE_ATTRS = ("annotation", "return_annotation")
     n = 0
+
+    def live_names(fn_node):
+        out = set()
+        for st in ast.walk(fn_node):
+            if isinstance(st, ast.Assign) and len(st.targets) == 1 and isinstance(st.targets[0], ast.Name) and isinstance(st.value, ast.Attribute) \
+                    and st.value.attr in LIVE_ATTRS:
+                out.add(st.targets[0].id)
+        return out
+
+    def judge(fi, roots, names, inst, at):
+        """roots: the expressions whose value becomes `typ`; names: local names that hold the live annotation"""
+        def is_live(y):
+            return (isinstance(y, ast.Attribute) and y.attr in LIVE_ATTRS) or (isinstance(y, ast.Name) and y.id in names)
+
+        def mentions_live(e):
+            return any(is_live(y) for y in ast.walk(e))
+
+        def _name_read(e):
+            """`<live>.__name__` / `getattr(<live>, "__name__"[, d])` (also `__qualname__`)"""
+            if isinstance(e, ast.Attribute) and e.attr in ("__name__", "__qualname__") and mentions_live(e.value):
+                return True
+            return isinstance(e, ast.Call) and isinstance(e.func, ast.Name) and e.func.id == "getattr" and len(e.args) >= 2 \
+                and isinstance(e.args[1], ast.Constant) and e.args[1].value in ("__name__", "__qualname__") and mentions_live(e.args[0])
+
+        def class_test(atom):
+            return isinstance(atom, ast.Call) and getattr(atom.func, "id", getattr(atom.func, "attr", "")) in ("isinstance", "isclass") and atom.args \
+                and mentions_live(atom.args[0])
+
+        def excluded_for_classes(c):
+            """the formatting call stands where the annotation is known not to be a class (`... if isinstance(a, type) else str(a)`)"""
+            for t, pol in expr_guards(c, stop=fi.node):
+                for atom, p_ in facts(t, pol):
+                    if not p_ and (class_test(atom) or _name_read(atom)):
+                        # (`getattr(a, "__name__", None) or str(a)`: a class always has a non-empty name, so the right operand is no class)
+                        return True
+            return False
+
+        def known_class(e):
+            return any(p_ and class_test(atom) for t, pol in expr_guards(e, stop=fi.node) for atom, p_ in facts(t, pol))
+        formatted, named, by_name = [], [], False
+        # what a returned / assigned local holds is judged where it was computed (`name = getattr(a, "__name__", None) ... return name`)
+        roots, seen_roots = list(roots), set()
+        for root in roots:
+            for nm in [x for x in ast.walk(root) if isinstance(x, ast.Name) and isinstance(x.ctx, ast.Load) and x.id not in names]:
+                defs = [st_ for st_ in ast.walk(fi.node) if isinstance(st_, ast.Assign) and len(st_.targets) == 1 and isinstance(st_.targets[0], ast.Name)
+                        and st_.targets[0].id == nm.id]
+                for d_ in defs:
+                    if id(d_) not in seen_roots and len(roots) < 24 and mentions_live(d_.value):
+                        seen_roots.add(id(d_))
+                        roots.append(d_.value)
+        for root in roots:
+            formatted += [c for c in ast.walk(root) if isinstance(c, ast.Call) and (
+                (isinstance(c.func, ast.Attribute) and c.func.attr == "format") or (isinstance(c.func, ast.Name) and c.func.id in ("str", "repr")))
+                and any(mentions_live(a_) for a_ in list(c.args) + [k.value for k in c.keywords]) and not excluded_for_classes(c)]
+            formatted += [j for j in ast.walk(root) if isinstance(j, ast.JoinedStr) and mentions_live(j) and not excluded_for_classes(j)]
+            # (name clause) what is not a class may still answer `__name__`: a subscripted typing alias forwards it to its origin
+            # (`typing.List[int].__name__ == 'List'`, `Optional[int].__name__ == 'Optional'` on 3.10+), so the name is the type only of a class
+            named += [e for e in ast.walk(root) if _name_read(e) and not known_class(e)]
+            by_name = by_name or any(isinstance(c, ast.Call) and getattr(c.func, "id", getattr(c.func, "attr", "")) == "formatannotation" for c in ast.walk(root))
+        if formatted and not by_name:
+            rep.violation(Finding(
+                "LIVE-TYPE", prog.owner_name(fi), "annotation-object-formatted",
+                "%s formats the live annotation object into the IR's type: for a class this is \"<class 'int'>\", which no emitter can parse as a type - "
+                "gen fails for every annotated function or method" % src(formatted[0], 50), loc(prog, formatted[0])))
+        elif named and not by_name:
+            rep.violation(Finding(
+                "LIVE-TYPE", prog.owner_name(fi), "name-of-a-non-class",
+                "%s is written into the IR's type without a test that the annotation is a class: a subscripted typing alias answers the name of its origin "
+                "(`typing.List[int].__name__` is 'List', `Optional[int]` gives 'Optional'), so the generated definition loses the element types" % src(named[0], 50),
+                loc(prog, named[0])))
+        else:
+            rep.holds("LIVE-TYPE", inst, loc(prog, at), "a class is written by its name, anything else as `str` writes it")
     for fi in prog.all_functions():   # wherever the package reads a live signature (a private reader may be renamed or split)
+        names = live_names(fi.node)
         for st in ast.walk(fi.node):
             if not (isinstance(st, ast.Assign) and any(isinstance(t, ast.Subscript) and isinstance(t.slice, ast.Constant) and t.slice.value == "typ" for t in st.targets)):
                 continue
-            live = [x for x in ast.walk(st.value) if isinstance(x, ast.Attribute) and x.attr in ("annotation", "return_annotation")]
-            if not live:
+            if not any((isinstance(x, ast.Attribute) and x.attr in LIVE_ATTRS) or (isinstance(x, ast.Name) and x.id in names) for x in ast.walk(st.value)):
                 continue
             n += 1
-            formatted = [c for c in ast.walk(st.value) if isinstance(c, ast.Call) and (
-                (isinstance(c.func, ast.Attribute) and c.func.attr == "format") or (isinstance(c.func, ast.Name) and c.func.id in ("str", "repr")))
-                and any(x in live for a in list(c.args) + [k.value for k in c.keywords] for x in ast.walk(a))]
-            from sa.cfg import facts
-
-            def excluded_for_classes(c):
-                """the formatting call stands where the annotation is known not to be a class (`... if isinstance(a, type) else str(a)`)"""
-                for t, pol in expr_guards(c, stop=fi.node):
-                    for atom, p_ in facts(t, pol):
-                        if isinstance(atom, ast.Call) and isinstance(atom.func, ast.Name) and atom.func.id in ("isinstance", "isclass") and atom.args \
-                                and any(y in live or (isinstance(y, ast.Attribute) and y.attr in ("annotation", "return_annotation")) for y in ast.walk(atom.args[0])) and not p_:
-                            return True
-                        if isinstance(atom, ast.Call) and isinstance(atom.func, ast.Attribute) and atom.func.attr == "isclass" and not p_:
-                            return True
-                        # `getattr(a, "__name__", None) or str(a)`: a class always has a non-empty name, so the right operand is no class
-                        if not p_ and _name_read(atom):
-                            return True
-                return False
-
-            def _name_read(e):
-                """`<live>.__name__` / `getattr(<live>, "__name__"[, d])` (also `__qualname__`)"""
-                if isinstance(e, ast.Attribute) and e.attr in ("__name__", "__qualname__") and any(y in live for y in ast.walk(e.value)):
-                    return True
-                return isinstance(e, ast.Call) and isinstance(e.func, ast.Name) and e.func.id == "getattr" and len(e.args) >= 2 \
-                    and isinstance(e.args[1], ast.Constant) and e.args[1].value in ("__name__", "__qualname__") and any(y in live for y in ast.walk(e.args[0]))
-
-            def known_class(e):
-                for t, pol in expr_guards(e, stop=fi.node):
-                    for atom, p_ in facts(t, pol):
-                        if p_ and isinstance(atom, ast.Call) and getattr(atom.func, "id", getattr(atom.func, "attr", "")) in ("isinstance", "isclass") and atom.args \
-                                and any(y in live or (isinstance(y, ast.Attribute) and y.attr in ("annotation", "return_annotation")) for y in ast.walk(atom.args[0])):
-                            return True
-                return False
-            formatted = [c for c in formatted if not excluded_for_classes(c)]
-            # (name clause) what is not a class may still answer `__name__`: a subscripted typing alias forwards it to its origin
-            # (`typing.List[int].__name__ == 'List'`, `Optional[int].__name__ == 'Optional'` on 3.10+), so the name is the type only of a class
-            named = [e for e in ast.walk(st.value) if _name_read(e) and not known_class(e)]
-            by_name = any(isinstance(c, ast.Call) and getattr(c.func, "id", getattr(c.func, "attr", "")) == "formatannotation" for c in ast.walk(st.value))
             inst = "%s: %s" % (prog.owner_name(fi), src(st, 60))
-            if formatted and not by_name:
-                rep.violation(Finding(
-                    "LIVE-TYPE", prog.owner_name(fi), "annotation-object-formatted",
-                    "%s formats the live annotation object into the IR's type: for a class this is \"<class 'int'>\", which no emitter can parse as a type - "
-                    "gen fails for every annotated function or method" % src(formatted[0], 50), loc(prog, formatted[0])))
-            elif named and not by_name:
-                rep.violation(Finding(
-                    "LIVE-TYPE", prog.owner_name(fi), "name-of-a-non-class",
-                    "%s is written into the IR's type without a test that the annotation is a class: a subscripted typing alias answers the name of its origin "
-                    "(`typing.List[int].__name__` is 'List', `Optional[int]` gives 'Optional'), so the generated definition loses the element types" % src(named[0], 50),
-                    loc(prog, named[0])))
-            else:
-                rep.holds("LIVE-TYPE", inst, loc(prog, st), "a class is written by its name, anything else as `str` writes it")
+            judge(fi, [st.value], names, inst, st)
+            # the annotation handed to a package helper: what the helper returns is judged with its parameter as the annotation
+            for c in ast.walk(st.value):
+                if not (isinstance(c, ast.Call) and isinstance(c.func, (ast.Name, ast.Attribute))):
+                    continue
+                for t in prog.resolve_expr_fn(c.func, c):
+                    if not (isinstance(t, FunctionInfo) and isinstance(t.node, ast.FunctionDef)):
+                        continue
+                    ps = t.params()
+                    recv = {ps[i] for i, a_ in enumerate(c.args) if i < len(ps) and ((isinstance(a_, ast.Attribute) and a_.attr in LIVE_ATTRS) or (isinstance(a_, ast.Name) and a_.id in names))}
+                    recv |= {k.arg for k in c.keywords if k.arg and ((isinstance(k.value, ast.Attribute) and k.value.attr in LIVE_ATTRS) or (isinstance(k.value, ast.Name) and k.value.id in names))}
+                    if not recv:
+                        continue
+                    rets = [r.value for r in ast.walk(t.node) if isinstance(r, ast.Return) and r.value is not None and enclosing_fn(r) is t]
+                    if rets:
+                        n += 1
+                        judge(t, rets, recv | live_names(t.node), "%s: what %s returns for the annotation" % (prog.owner_name(fi), t.qualname), t.node)
     if n == 0:
         raise AnalysisError("LIVE-TYPE: no assignment of a live annotation to 'typ' found in the package")
 
